@@ -5,7 +5,7 @@ from vf import Machinery, log
 # per property: universes (spec/Imports_<u>.cfg) and Go-side drivers "name:count"
 PROFILE = {
     "C02": dict(universes=[], drivers=[], compose=True),
-    "C03": dict(universes=["collide", "history"], drivers=["mix:%d", "history:%d", "stdpairs:200", "paths:%d", "compete:%d", "cgo:%d"]),
+    "C03": dict(universes=["collide", "history"], drivers=["mix:%d", "history:%d", "stdpairs:200", "paths:%d", "compete:%d", "cgo:%d", "dotlocal:%d"]),
     "C04": dict(universes=["nulls", "collide", "cgo"], drivers=["hints:%d", "nullrefs:%d", "cgo:%d"]),
     "C05": dict(universes=["collide", "reserved", "history"], drivers=["reserved:0", "paths:%d", "compete:%d", "cgo:%d", "history:%d"]),
     "C06": dict(universes=["dotlocal"], drivers=["dotlocal:%d"]),
